@@ -436,6 +436,18 @@ class _SpyneJsonRpc1(JsonDocument):
 
         self.event_manager.fire_event('after_serialize', ctx)
 
+    def create_out_string(self, ctx, out_string_encoding='utf8'):
+        """Sets ``ctx.out_string`` using ``ctx.out_document``, which is ONE
+        document (a dict) here, not a sequence of documents: iterating it
+        would write its keys."""
+
+        doc = ctx.out_document
+        if out_string_encoding is None:
+            ctx.out_string = [json.dumps(doc, **self.kwargs)]
+        else:
+            ctx.out_string = [json.dumps(doc, **self.kwargs)
+                                                   .encode(out_string_encoding)]
+
 
 _json_rpc_flavors = {
     'spyne': _SpyneJsonRpc1
